@@ -145,7 +145,11 @@ def lean_obligations(prop: str, extra_targets=(), recheck=False):
 
     Returns dict(obligations=[{name, axioms, discharged, why}], build_ok, driver_ok, log, forbidden=[...])."""
     props = LEAN / "Pyc" / "Props" / f"{prop}.lean"
-    res = {"obligations": [], "build_ok": True, "driver_ok": True, "log": "", "forbidden": [], "translator": None}
+    # extension property files Props/<prop>_<Area>.lean: same rules as Props/<prop>.lean (property theorems only, each
+    # audited with `#print axioms`); they let a model of one more area of the code be added without editing the main file
+    prop_files = [props] + sorted((LEAN / "Pyc" / "Props").glob(f"{prop}_*.lean"))
+    res = {"obligations": [], "build_ok": True, "driver_ok": True, "log": "", "forbidden": [], "translator": None,
+           "prop_files": [str(f.relative_to(LEAN)) for f in prop_files]}
     with BuildLock():
         res["translator"] = regenerate()
         # forbidden tokens anywhere in the library
@@ -154,7 +158,7 @@ def lean_obligations(prop: str, extra_targets=(), recheck=False):
             for i, line in enumerate(src.splitlines(), 1):
                 if FORBIDDEN.search(line):
                     res["forbidden"].append(f"{f.relative_to(LEAN)}:{i}: {line.strip()[:80]}")
-        rc, out = run_cmd(["lake", "build", f"Pyc.Props.{prop}", *extra_targets], cwd=str(LEAN))
+        rc, out = run_cmd(["lake", "build", *[f"Pyc.Props.{f.stem}" for f in prop_files], *extra_targets], cwd=str(LEAN))
         if rc != 0:
             res["build_ok"] = False
             res["log"] += out[-6000:]
@@ -162,8 +166,11 @@ def lean_obligations(prop: str, extra_targets=(), recheck=False):
         if rc2 != 0:
             res["driver_ok"] = False
             res["log"] += out2[-6000:]
-    names = theorem_names(props.read_text())
-    rc3, out3 = run_cmd(["lake", "env", "lean", str(props.relative_to(LEAN))], cwd=str(LEAN))
+    names, rc3, out3 = [], 0, ""
+    for pf in prop_files:
+        names += theorem_names(pf.read_text())
+        rc_, out_ = run_cmd(["lake", "env", "lean", str(pf.relative_to(LEAN))], cwd=str(LEAN))
+        rc3, out3 = max(rc3, rc_), out3 + out_
     ax = {}
     for m in re.finditer(r"'([^']+)' depends on axioms: \[([^\]]*)\]", out3):
         ax[m.group(1)] = [a.strip() for a in m.group(2).replace("\n", " ").split(",") if a.strip()]
@@ -189,7 +196,7 @@ def lean_obligations(prop: str, extra_targets=(), recheck=False):
     if recheck:
         # thorough tier: the toolchain's independent re-checker replays every declaration of the property module and of
         # every Pyc module it (transitively) imports from the compiled .olean files
-        mods, todo = [], [f"Pyc.Props.{prop}"]
+        mods, todo = [], [f"Pyc.Props.{f.stem}" for f in prop_files]
         while todo:
             m = todo.pop()
             if m in mods:
@@ -325,7 +332,9 @@ class Ctx:
             "property_id": self.prop, "tier": self.tier, "seed": self.seed, "level": "proof",
             "coverage": {
                 "obligations": len(obs), "discharged": len(obs) - len(broken),
-                "checker_cmd": f"cd lean && lake build Pyc.Props.{self.prop} && lake env lean Pyc/Props/{self.prop}.lean"
+                "checker_cmd": "cd lean && " + " && ".join(
+                    f"lake build Pyc.Props.{Path(f).stem} && lake env lean {f}"
+                    for f in lean.get("prop_files", [f"Pyc/Props/{self.prop}.lean"]))
                                + (" && lake env leanchecker <the module and its Pyc imports>" if self.thorough else ""),
                 "trusted_base": ["Lean 4.33.0 kernel"] + [f"axiom {a}" for a in axioms] + [
                     "correspondence harness (model driver vs /repo in-process)"] + self.extra.pop("trusted", []),
